@@ -37,6 +37,7 @@ func TestVerifC03F(t *testing.T) {
 		}
 		spec := c04GenSpec(r, i)
 		spec.Plan = ""
+		spec.Slow, spec.K = false, 0
 		spec.Client = []string{"fullrt", "fullrt", "dual"}[r.Intn(3)]
 		if spec.Op == "pk" {
 			spec.Op = []string{"search", "get"}[r.Intn(2)]
